@@ -68,7 +68,7 @@ def build_crop(x, root, case):
                 os.path.join(crops.crop_dir(root, "c11"),
                              "xyz-settings.jbdmp"),
                 f"actor-grow{len(case['growers']) - 1}")
-    fn = crops.record(kind, None, slow)
+    fn = crops.record(kind, None, slow, bool(case.get("fn_seeds")))
     N, B = case["N"], case["B"]
     crop = x.Crop(fn=fn, name="c11", parent_dir=root, num_batches=B)
     crop.sow_combos({"a": list(range(N))}, verbosity=0)
@@ -375,11 +375,21 @@ def one_run(x, root, case, expected, direct, schedule, default="rr"):
 
 def run_case(case):
     x = xyz()
-    with core.scratch("xv-c11-") as root:
-        with _lock:
-            expected, direct = build_crop(x, root, case)
-            _, info = one_run(x, root, case, expected, direct,
-                              case["schedule"])
+    # (growers started by mpiexec find their rank in the environment; each
+    # grower here is the rank-0 process of its own job)
+    env = {"openmpi": "OMPI_COMM_WORLD_RANK", "mpich": "PMI_RANK"}.get(
+        case.get("mpi"))
+    try:
+        if env:
+            os.environ[env] = "0"
+        with core.scratch("xv-c11-") as root:
+            with _lock:
+                expected, direct = build_crop(x, root, case)
+                _, info = one_run(x, root, case, expected, direct,
+                                  case["schedule"])
+    finally:
+        if env:
+            os.environ.pop(env, None)
     return {"nontrivial": info["observed_inflight"] > 0,
             "classes": [f"B={case['B']}", f"kind={case['kind']}",
                         f"growers={len(case['growers'])}",
@@ -459,6 +469,8 @@ def strategy(draw):
         case["fn_yields"] = True
         case["poller"] = 0
         case.pop("pre_grown", None)     # (a tolerant reap keeps the crop)
+    case["fn_seeds"] = draw(st.booleans())
+    case["mpi"] = draw(st.sampled_from([None, None, "openmpi", "mpich"]))
     return case
 
 
